@@ -189,7 +189,11 @@ func (r *FeatureLocal) addPendingApproval(msg *api.Message) {
 
 	ski := msg.DeviceRemote.Ski()
 
-	newTimer := time.AfterFunc(r.writeTimeout, func() {
+	r.muxResponseCB.Lock()
+	writeTimeout := r.writeTimeout
+	r.muxResponseCB.Unlock()
+
+	newTimer := time.AfterFunc(writeTimeout, func() {
 		r.muxResponseCB.Lock()
 		delete(r.pendingWriteApprovals[ski], *msg.RequestHeader.MsgCounter)
 		r.muxResponseCB.Unlock()
@@ -267,6 +271,9 @@ func (r *FeatureLocal) ApproveOrDenyWrite(msg *api.Message, err model.ErrorType)
 }
 
 func (r *FeatureLocal) SetWriteApprovalTimeout(duration time.Duration) {
+	r.muxResponseCB.Lock()
+	defer r.muxResponseCB.Unlock()
+
 	r.writeTimeout = duration
 }
 
@@ -646,7 +653,10 @@ func (r *FeatureLocal) HandleMessage(message *api.Message) *model.ErrorType {
 		}
 	case model.CmdClassifierTypeWrite:
 		// if there is a write permission check callback set, invoke this instead of directly allowing the write
-		if len(r.writeApprovalCallbacks) > 0 {
+		r.muxResponseCB.Lock()
+		hasWriteApprovalCallbacks := len(r.writeApprovalCallbacks) > 0
+		r.muxResponseCB.Unlock()
+		if hasWriteApprovalCallbacks {
 			r.addPendingApproval(message)
 			r.processWriteApprovalCallbacks(message)
 		} else {
